@@ -838,9 +838,9 @@ def _classify_plugin(name, search):
             if hasattr(module, cn):
                 cls = getattr(module, cn)
                 if not cls:
-                    return "crash:AssertionError:plugins.py:resolve_plugin_alternatives"
+                    return "missing"
                 if not isinstance(cls, type):
-                    return "crash:TypeError:plugins.py:resolve_plugin"
+                    return "notplugin"
                 if issubclass(cls, BaseProvider):
                     return "faker"
                 a, b = issubclass(cls, P.SnowfakeryPlugin), issubclass(cls, P.ParserMacroPlugin)
@@ -855,6 +855,8 @@ def _classify_plugin(name, search):
 def _load_err(e):
     if isinstance(e, yaml.YAMLError):
         return "marked" if getattr(e, "problem_mark", None) is not None else "unmarked"
+    if isinstance(e, ValueError):
+        return "valueerror"
     return "exc:" + type(e).__name__
 
 
@@ -870,8 +872,9 @@ def _environment(py, base):
             if not isinstance(obj, dict):
                 continue
             p = obj.get("plugin")
-            if isinstance(p, str) and "." in p and p not in plugs:
-                plugs[p] = _classify_plugin(p, [path.parent / "plugins"])
+            if isinstance(p, str) and "." in p and all(x.isidentifier() for x in p.split(".")) and p not in plugs:
+                # (names of any other shape are rejected before importlib is asked)
+                plugs[p] = _classify_plugin(p, [path.parent / "plugins"]) if p.isascii() else "nonascii"
             v = obj.get("include_file")
             if isinstance(v, str) and v and not v.startswith("/") and "\x00" not in v:
                 if any(f[0] == filekey and f[1] == v for f in files):
@@ -883,6 +886,8 @@ def _environment(py, base):
                     files.append([filekey, v, "dir"])
                 else:
                     key = os.path.realpath(target)
+                    if main_real is not None and key == main_real:
+                        key = ""                 # the main file itself
                     try:
                         with target.open() as f:
                             inc = yaml.safe_load(f)
@@ -897,6 +902,8 @@ def _environment(py, base):
                         visited.add(key)
                         scan(inc, key, target, depth + 1)
     path = (REPO / base).absolute() if base else Path("<stream>")
+    main_real = os.path.realpath(path) if base else None
+    visited.add("")
     scan(py, "", path, 0)
     return {"files": files, "plugins": plugs}
 
@@ -1071,6 +1078,8 @@ def _cloaderr(how):
         return "LMarked"
     if how == "unmarked":
         return "LUnmarked"
+    if how == "valueerror":
+        return "LValueError"
     return f"(LExc {cs(how[4:] + ':' + YAML_SITE)})"
 
 
@@ -1093,6 +1102,8 @@ def _cenv(env):
         fs.append(f"(({cs(f[0])}, {cs(f[1])}), {e})")
     ps = []
     for name, r in env["plugins"].items():
+        if r == "nonascii":
+            return None                   # str.isidentifier() on non-ASCII text is not modelled
         if r.startswith("crash:"):
             v = f"(PCrash {cs(r[6:])})"
         else:
@@ -1134,12 +1145,12 @@ def fault_path(case):
         "field_attr": (["STmplField"], "LLookup", "AttributeError"),
         "field_arg": (["STmplField", "SCallArg"], "LFunc", exc),
         "field_simple": (["STmplField"], "LEval", exc),
-        "count_call": (["(STmplCount false)"], "LFunc", exc),
-        "count_attr": (["(STmplCount false)"], "LLookup", "AttributeError"),
-        "count_simple": (["(STmplCount true)"], "LEval", exc),
-        "count_conv_simple": (["(STmplCount true)"], "LCountConv", "ValueError"),
-        "count_conv_struct": (["(STmplCount false)"], "LCountConv", "ValueError"),
-        "count_conv_inf": (["(STmplCount true)"], "LCountConv", "OverflowError"),
+        "count_call": (["STmplCount"], "LFunc", exc),
+        "count_attr": (["STmplCount"], "LLookup", "AttributeError"),
+        "count_simple": (["STmplCount"], "LEval", exc),
+        "count_conv_simple": (["STmplCount"], "LCountConv", "ValueError"),
+        "count_conv_struct": (["STmplCount"], "LCountConv", "ValueError"),
+        "count_conv_inf": (["STmplCount"], "LCountConv", "OverflowError"),
         "foreach_call": (["STmplForEach"], "LFunc", exc),
         "foreach_attr": (["STmplForEach"], "LLookup", "AttributeError"),
         "foreach_noniter": (["STmplForEach"], "LForEachType", "DGE"),
@@ -1282,99 +1293,7 @@ def directed_search(rng, disagreeing):
 
 # =============================================================================== known findings
 # id -> (exception signatures (type, file:function) | special, what, witness case)
-FINDINGS = {
- "C20-S01-unmarked-yaml-error": {
-  "sigs": [("AttributeError", "parse_recipe_yaml.py:parse_file")],
-  "what": "recipe text that PyYAML rejects with an unmarked YAMLError (ReaderError: a control character such as \\x01 or NUL) crashes parse_file with AttributeError: 'ReaderError' object has no attribute 'problem_mark' (parse_recipe_yaml.py:730 reads y.problem_mark.line of every YAMLError)",
-  "case": {"kind": "text", "text": "- object: A\x01\n"}},
- "C20-S02-pyyaml-non-yaml-error": {
-  "sigs": [("*", "parse_recipe_yaml.py:yaml_safe_load_with_line_numbers")],
-  "what": "values PyYAML resolves as timestamps but cannot construct (x: 2020-13-45, 2020-01-01 25:00:00) make yaml raise ValueError, which parse_file does not catch (only YAMLError): the recipe is answered with ValueError: month must be in 1..12",
-  "case": {"kind": "text", "text": "- object: A\n  fields:\n    x: 2020-13-45\n"}},
- "K8": {
-  "sigs": [("RecursionError", "cyclic-alias")],
-  "what": "a self-referential YAML alias (fields: &f {x: *f}) is walked without end by parse_structured_value_args / parse_element: RecursionError instead of a recipe error",
-  "case": {"kind": "text", "text": "- object: A\n  fields: &f\n    x: *f\n"}},
- "C20-S04-macro-friend-cycle": {
-  "sigs": [("RecursionError", "macro-cycle")],
-  "what": "a macro whose friend template includes the same macro is expanded without end: parse_object_template calls parse_inclusions with parent_macros reset to (), so include_macro's cycle check never sees the outer expansion (RecursionError instead of the `Macro a calls ... which calls a` error)",
-  "case": {"kind": "text", "text": "- macro: m\n  friends:\n    - object: B\n      include: m\n- object: A\n  include: m\n"}},
- "C20-S05-include-file-cycle": {
-  "sigs": [("RecursionError", "file-cycle")],
-  "what": "a recipe file that includes itself (directly or through another file) is parsed without end: parse_included_file keeps no set of files being loaded (RecursionError)",
-  "case": {"kind": "files", "main": "main.yml", "files": {"main.yml": "- include_file: main.yml\n- object: A\n"}}},
- "C20-S06-include-directory": {
-  "sigs": [("IsADirectoryError", "parse_recipe_yaml.py:parse_included_file")],
-  "what": "include_file naming a directory (`include_file: .`) passes the exists() test and fails in open() with IsADirectoryError",
-  "case": {"kind": "text", "text": "- include_file: .\n- object: A\n"}},
- "C20-S07-unhashable-macro-name": {
-  "sigs": [("TypeError", "parse_recipe_yaml.py:parse_top_level_elements")],
-  "what": "a macro whose name is a list or mapping (`macro: [a]`) is used as a dict key before any type check: TypeError: unhashable type",
-  "case": {"kind": "text", "text": "- macro: [a]\n  fields: {a: b}\n- object: A\n"}},
- "C20-S08-unhashable-option-name": {
-  "sigs": [("TypeError", "data_generator.py:merge_options")],
-  "what": "an option whose name is a list, mapping or set (`option: [1]`): option elements are never passed through parse_element and merge_options hashes the name: TypeError: unhashable type",
-  "case": {"kind": "text", "text": "- option: [1]\n  default: 3\n- object: A\n"}},
- "C20-S09-plugin-name-without-dot": {
-  "sigs": [("ValueError", "plugins.py:resolve_plugin_alternatives")],
-  "what": "`plugin: foo` (no dot): `prefix, class_name = plugin.rsplit('.', 1)` raises ValueError: not enough values to unpack",
-  "case": {"kind": "text", "text": "- plugin: foo\n- object: A\n"}},
- "C20-S10-plugin-import-error": {
-  "sigs": [("TypeError", "plugins.py:resolve_plugin_alternatives"), ("TypeError", "plugins.py:resolve_plugin"),
-           ("AssertionError", "plugins.py:resolve_plugin_alternatives")],
-  "what": "plugin names on which importlib raises something other than ModuleNotFoundError (`plugin: .x`: TypeError relative import) or which name a non-class attribute (`plugin: os.path`: issubclass() arg 1 must be a class) escape unwrapped",
-  "case": {"kind": "text", "text": "- plugin: os.path\n- object: A\n"}},
- "C20-S11-version-nan": {
-  "sigs": [("IndexError", "parse_recipe_yaml.py:parse_version")],
-  "what": "`snowfakery_version: .nan`: nan != nan makes the single declaration mismatch itself and parse_version indexes version_declarations[1]: IndexError",
-  "case": {"kind": "text", "text": "- snowfakery_version: .nan\n- object: A\n"}},
- "C20-S12-empty-field-name": {
-  "sigs": [("AssertionError", "parse_recipe_yaml.py:parse_field")],
-  "what": "a field whose name is the empty string (fields: {'': x}) fails `assert name, name` in parse_field",
-  "case": {"kind": "text", "text": "- object: A\n  fields:\n    '': x\n"}},
- "C20-S13-friend-with-non-string-key": {
-  "sigs": [("AttributeError", "parse_recipe_yaml.py:parse_statement_list")],
-  "what": "a friends entry that is neither object nor var and has a non-string key (friends: [{5: v}]): the error path calls key.startswith('_') on it: AttributeError",
-  "case": {"kind": "text", "text": "- object: A\n  friends:\n    - 5: v\n"}},
- "C20-S14-for-each-without-var": {
-  "sigs": [("AttributeError", "parse_recipe_yaml.py:parse_for_each_variable_definition")],
-  "what": "for_each without `var` (for_each: {value: ...}): parse_element does not require the element-type key, parsed_template.var does not exist: AttributeError: 'DictValuesAsAttrs' object has no attribute 'var'",
-  "case": {"kind": "text", "text": "- object: A\n  for_each:\n    value: x\n"}},
- "C20-S15-random-reference-shape": {
-  "sigs": [("KeyError", "data_generator_runtime.py:get_referent_name"),
-           ("UnboundLocalError", "data_generator_runtime.py:get_referent_name"),
-           ("AttributeError", "data_generator_runtime.py:get_referent_name")],
-  "what": "random_reference with keyword arguments but no `to` (KeyError: 'to'), with an empty list / mapping (UnboundLocalError: ret), or whose first argument is a function call or nested object (AttributeError: no attribute 'definition'): get_referent_name assumes the shape",
-  "case": {"kind": "text", "text": "- object: A\n  fields:\n    x:\n      random_reference:\n        scope: y\n"}},
- "C20-S16-version-option-override": {
-  "sigs": [("AssertionError", "data_generator_runtime.py:__init__")],
-  "what": "an `option` named snowfakery.standard_plugins.SnowfakeryVersion.snowfakery_version with a default other than 2 / 3 overwrites the plugin option and fails `assert snowfakery_version in (2, 3)` in Interpreter.__init__",
-  "case": {"kind": "text", "text": "- option: snowfakery.standard_plugins.SnowfakeryVersion.snowfakery_version\n  default: 7\n- object: A\n"}},
- "C20-R1-count-not-simple-value": {
-  "sigs": [("AttributeError", "data_generator_runtime_object_model.py:_evaluate_count")],
-  "what": "a top-level template whose count is a function call or nested object that does not yield a number (count: {fake: Name}): the except clause of _evaluate_count formats self.count_expr.definition, which only SimpleValue has: AttributeError (below another template the same error is wrapped)",
-  "case": {"kind": "text", "text": "- object: A\n  count:\n    fake: Name\n"}},
- "C20-R2-count-infinite": {
-  "sigs": [("OverflowError", "data_generator_runtime_object_model.py:_evaluate_count")],
-  "what": "a top-level template with count: inf (or 1e400, infinity): int(float('inf')) raises OverflowError, which is not in `except (ValueError, TypeError)` and _evaluate_count runs outside exception_handling",
-  "case": {"kind": "text", "text": "- object: A\n  count: inf\n"}},
- "C20-R3-top-level-var-dot": {
-  "sigs": [("ValueError", "template_utils.py:look_for_number")],
-  "what": "a top-level `var` whose value is the string '.': look_for_number('.') calls float('.') after SimpleValue.render's try block, and VariableDefinition.execute has no handler: ValueError (inside a field the same error is wrapped)",
-  "case": {"kind": "text", "text": "- var: v\n  value: .\n- object: A\n"}},
- "C20-R4-top-level-var-plugin-attribute": {
-  "sigs": [("AttributeError", "data_generator_runtime_object_model.py:render")],
-  "what": "a top-level `var` value (or the `count` of a top-level template) that calls a function a declared plugin does not have (Math.nosuch): StructuredValue.render re-raises AttributeError before its exception_handling block; VariableDefinition.execute has no handler and _evaluate_count catches only ValueError / TypeError",
-  "case": {"kind": "text", "text": "- plugin: snowfakery.standard_plugins.Math\n- var: v\n  value:\n    Math.nosuch: 1\n- object: A\n"}},
- "C20-R5-invalid-locale": {
-  "sigs": [("AttributeError", "fake_data_generator.py:__init__")],
-  "what": "`var: snowfakery_locale` with a value Faker does not know (zz_ZZ): the Faker library is created in RuntimeContext.__init__ (child_context), outside every handler: AttributeError: Invalid configuration for faker locale",
-  "case": {"kind": "text", "text": "- var: snowfakery_locale\n  value: zz_ZZ\n- object: A\n  fields:\n    n:\n      fake: Name\n"}},
- "C20-R6-schedule-interval-zero-hangs": {
-  "sigs": [("HANG", "schedule-interval")],
-  "what": "Schedule.Event with interval: 0 (or false) never returns: dateutil's rrule with interval 0 loops forever when the second value is asked for (the recipe hangs, no error)",
-  "case": {"kind": "text", "text": "- plugin: snowfakery.standard_plugins.Schedule\n- object: A\n  count: 3\n  fields:\n    d:\n      Schedule.Event:\n        start_date: 2023-01-01\n        freq: weekly\n        interval: 0\n"}},
-}
+FINDINGS = {}        # every defect found while this check was built is repaired (KNOWN_FINDINGS.json: fixed)
 
 
 def _walk_py(o):
@@ -1519,7 +1438,7 @@ def match_finding(case, obs, msg, findings):
     return None
 
 
-def write_findings_corpus():
+def write_findings_corpus():   # (maintenance; FINDINGS is empty at present)
     """(maintenance) corpus/C20/known_findings.json and the KNOWN_FINDINGS.json entries as text"""
     cases = []
     entries = []
